@@ -9,7 +9,7 @@ fn run_pair<S: VF + PartialOrd<D>, D: VF + PartialOrd<S>>(st: usize, op: u16, a:
     match op {
         CONV_FF => {
             to_num_forms::<S, D>(st, 0, x, |d| d.raw(), outs);
-            from_num_forms::<D, S>(st, 5, x, outs);
+            from_num_forms::<D, S>(st, 6, x, outs);
         }
         _ => cmp_forms(st, 0, x, D::from_raw(b), outs),
     }
